@@ -71,3 +71,10 @@ claimed["C02"] = (
     "trusts the reference interpreter (self-consistent with C01 chains and hand-checked tables); string length = bytes; conversions the statement does not name are unspecified",
     "DESIGN.md §3 C02, App. A",
 )
+claimed["C03"] = (
+    "exploration",
+    "runtime differential against the reference interpreter over an enumerated space of small objects (flags x rule graphs x supplied subsets) and one-of dispatch cases, map-based and struct-mapped; native-form checks for Validate/Serialize",
+    "Objects with 1 and 2 properties are enumerated over the full product of required / default / disabled and all required_if / required_if_not / conflicts subsets, objects with 3 properties over required x default x one rule kind per property with every subset of the others, each with all supplied subsets, on a map-based object and on a struct-mapped one (quick: all of k<=2 and a 1/8 slice of k=3; thorough: everything); one-of schemas are enumerated over key type x inlining x member kinds x discriminator representations x payloads x map key types; generated objects and scopes add larger shapes. Unserialize must agree with the reference (acceptance and denoted value, defaults never overriding supplied values, presence rules after defaulting); Validate and Serialize must accept a native map / struct exactly when it satisfies the key, type, presence and dispatch rules.",
+    "k=3 restricts each property to one rule kind; disabled+default-only and absent by-value sub-objects of struct-mapped parents are unspecified; trusts the reference interpreter",
+    "DESIGN.md §3 C03, App. A",
+)
